@@ -100,6 +100,14 @@ def code_for_expr(expr: Any) -> cst.CSTNode:
       )
     elif isinstance(value, (list, tuple)):
       original = value
+      if type(value) not in (list, tuple):
+        # E.g. a NamedTuple: emitting it as a plain list / tuple literal would
+        # silently change its type.
+        raise TypeError(
+            f"Cannot generate code for {original!r}: {type(original)} "
+            "subclasses list or tuple. Please replace these objects in your "
+            "input config, likely with fdl.Config nodes."
+        )
       value = state.map_children(value)
       if isinstance(value, list):
         cst_cls = cst.List
